@@ -4,6 +4,7 @@
 mod c10;
 mod c11;
 mod env;
+mod wire;
 
 fn main() {
     let args = csv_common::Args::parse();
